@@ -165,7 +165,9 @@ def run(prop, seed, tier):
                     if getattr(mod, n.name) != v or type(getattr(mod, n.name)) is not int:
                         fail('python-constant', schema, '%s: python constant %r, expected int %d' % (n.name, getattr(mod, n.name), v))
                     lit = cpp._to_literal(str(n.value))
-                    if int(lit.rstrip('u'), 0) != v or ('enum { %s = %s }' % (n.name, lit)) not in hpp:
+                    # what the literal denotes in C++: an unsigned suffix makes a negative number wrap around
+                    cxx = int(lit.rstrip('u'), 0) % (1 << 32) if lit.endswith('u') else int(lit, 0)
+                    if cxx != v or ('enum { %s = %s }' % (n.name, lit)) not in hpp:
                         fail('cpp-literal', schema, '%s: C++ literal %r for %d' % (n.name, lit, v))
                     # model-time evaluator on the text it can read (decimal and hex literals only)
                     if not any(t.startswith('0') and len(t) > 1 and not t.lower().startswith('0x') for t in text.replace('(', ' ').replace(')', ' ').split()):
